@@ -535,6 +535,39 @@ func (nd *anNode) multicall(tokName string) (int, interface{}, string) {
 	case "dec256":
 		res[2] = succ(anVal("U256", "256"))
 	}
+	// "val<pos>:<variant>": call <pos> (0 symbol, 1 name, 2 decimals) succeeds with exactly ONE return value of the given
+	// sdk.Val variant; every variant other than the expected one (ByteVec, ByteVec, U256 in 0..255) is no usable answer
+	if strings.HasPrefix(shape, "val") && len(shape) > 5 && shape[4] == ':' {
+		pos := int(shape[3] - '0')
+		var v interface{}
+		switch shape[5:] {
+		case "bool":
+			v = anVal("Bool", true)
+		case "i256":
+			v = anVal("I256", "-1")
+		case "i256pos":
+			v = anVal("I256", "8")
+		case "u256":
+			v = anVal("U256", "8")
+		case "u256big":
+			v = anVal("U256", "115792089237316195423570985008687907853269984665640564039457584007913129639935")
+		case "bytevec":
+			v = anVal("ByteVec", "08")
+		case "address":
+			v = anVal("Address", "14PqtYSSbwpUi2RJKUvv9yUwGafd6yHbEcke7ionuiE7w")
+		case "array":
+			v = anVal("Array", []interface{}{anVal("U256", "8"), anVal("U256", "8")})
+		case "array-empty":
+			v = anVal("Array", []interface{}{})
+		case "array-nested":
+			v = anVal("Array", []interface{}{anVal("Array", []interface{}{anVal("ByteVec", "544b41")}), anVal("Array", []interface{}{})})
+		case "array-bytevec":
+			v = anVal("Array", []interface{}{anVal("ByteVec", "544b41")})
+		}
+		if v != nil && pos >= 0 && pos <= 2 {
+			res[pos] = succ(v)
+		}
+	}
 	return 200, map[string]interface{}{"results": res}, shape
 }
 
